@@ -24,3 +24,24 @@ claim("C20", "translator-generated cfg model + Lean 4 theorem by decide +kernel 
       "Not carried by the model: type checking, borrow checking, name resolution beyond enum variants and aliases, test outcomes (observed, not proved). "
       "The translator flags any cfg shape it does not understand as untranslatable, which fails the theorem.",
       ref="DESIGN.md section 6, C20")
+
+claim("C07", "Lean 4 theorems (guard analysis per index site, induction over the scan loop) + differential correspondence on a malformed-input stream",
+      "Proved for the model, for EVERY byte list: Request/Response/ExceptionResponse decode, the four length predictors, both extract_frame (every pdu_len below the usize overflow point, "
+      "with a panic_iff lemma showing nothing else panics), both scanners in both directions and the four ADU decoders never return `panic`; termination is Lean's acceptance of the scan loop "
+      "(Props/C07.lean). The model returns `panic` at every index/slice/read/checked-add the Rust has, so each theorem is the argument that the guard suffices; PANIC vs ERR is part of the diff.",
+      "extract_frame(buf, n) with n + 3 (RTU) / n + 7 (TCP) >= 2^64 overflows the checked addition in the crate and in the model; n is a caller-supplied length, not an input byte slice, and is outside the property's quantifier.")
+
+claim("C15", "Lean 4 theorems (byte-wise classification by decide +kernel, equality of functions of the whole buffer) + dense differential correspondence",
+      "Proved for the model: rtu/tcp response_pdu_len and tcp request_pdu_len EQUAL the specification's predictor (Spec/Lengths.lean) as functions of the whole buffer, so the answer depends only on the length, "
+      "the function code and the count byte(s) (…_depends_only); rtu request_pdu_len equals it except for 0x0F/0x10 (…_partial), whose exact defective behaviour is pinned (rtu_req_len_defect, witness).",
+      "Open finding D4 (RTU 0x0F/0x10 reads offset 4) is pinned by the unedited test suite; see KNOWN_FINDINGS.txt. Correspondence covers all 256 function codes x lengths 0..24 x count values at every candidate position.")
+
+claim("C16", "Lean 4 theorems (bit-level loop invariant for the packing loop, byte extensionality, induction over coil lists) + differential correspondence (exhaustive to 10/16 coils)",
+      "Proved for the model, for every boolean list of any length and every prior target content: pack_coils yields ceil(n/8) bytes equal to the specification's arithmetic packing (coil i = bit i mod 8 of byte i div 8, padding zero), "
+      "independent of what the target held, bytes beyond untouched; unpack, get (for EVERY index value), iteration return exactly the booleans; too-small targets/sources are errors, never panics (Props/C16.lean).",
+      "Correspondence: all boolean sequences up to 10 (quick) / 16 (thorough) coils x clean/dirty/patterned targets, byte boundaries up to 2049, 65536+ coils, indices up to usize::MAX.")
+
+claim("C17", "Lean 4 theorems (induction over word lists; the target does not occur in the result) + differential correspondence",
+      "Proved for the model, for every non-empty word list and every target of capacity >= 2n with any contents: from_words = <big-endian bytes of the words, n> (no dependence on the target), len/get (every index value)/iteration "
+      "reproduce the words, every register PDU encoded from the value equals the specification's bytes of the words alone; too-small targets are errors (Props/C17.lean).",
+      "Correspondence: n = 0..130, 255..257, 300, 1000 x capacities 2n-1..4n+2 x fills, indices up to usize::MAX, then the PDUs built from the value.")
